@@ -417,3 +417,38 @@ def reaching_def(f, declid, use_node, defs=None):
         if dp == up or f.find_path(dp, {up}, avoid=others - {up}) is not None:
             reach.append(d)
     return reach[0][2] if len(reach) == 1 else None
+
+
+def loop_entered(f, head, loop_blocks):
+    """is the condition of the loop head `head` (a `while(v)` / `for(;v;)` test of a pointer or integer local) certainly true when
+    the loop is reached from outside?  The value that reaches the head from outside must be an expression that a dominating
+    branch edge established as true (e.g. `Item* item = parent;` below the else-branch of `if(!parent)`)."""
+    from . import fin
+    blk = f.blocks[head]
+    c = blk.get("cond")
+    if c is None or len(blk["succ"]) != 2:
+        return False
+    x = f.strip(c)
+    n = f.nodes[x]
+    if n["k"] != "DeclRefExpr" or n["ref"].get("dk") != "local":
+        return False
+    defs = local_defs(f)
+    outside = [p for p in f.preds.get(head, []) if p not in loop_blocks]
+    if not outside:
+        return False
+    for p in outside:
+        end = (p, len(f.blocks[p]["el"]))
+        dl = [d for d in defs.get(n["ref"]["id"], []) if d[2] is not None and d[0] != "addr" and f.node_pos(d[1]) is not None]
+        reach = [d for d in dl if f.node_pos(d[1]) == end or f.find_path(f.node_pos(d[1]), {end}, avoid=set(f.node_pos(o[1]) for o in dl if o is not d) - {end}) is not None
+                 or f.node_pos(d[1])[0] == p]
+        reach = [d for d in reach if (f.node_pos(d[1])[0] not in loop_blocks)]
+        if len(reach) != 1:
+            return False
+        val = {}
+        for a in fin.dominating_atoms(f, end):
+            if a[0] != "case":
+                val[fin.key(f, a[0])] = 1 if a[1] else 0
+        v = fin.eval_expr(f, reach[0][2], val)
+        if not v:
+            return False
+    return True
